@@ -1,7 +1,7 @@
 """C18 — approximate-equality and predicate methods test every component."""
 import algebra as A
 from algebra import El, ZERO, ONE
-from core import (Harness, VEC, PNT, MAT, sv, sm, sq, ss, Run, Conv, run_specs, report_dropped, ret_leaves, single_ret, flat, parse_guard, bool_conjunction)
+from core import (Harness, VEC, PNT, MAT, sv, sm, sq, ss, Run, Conv, run_specs, report_dropped, ret_leaves, single_ret, flat, parse_guard, bool_conjunction, conjuncts)
 import facts
 
 PROP = 'C18'
@@ -137,6 +137,23 @@ def check_approx_paths(run, S, name, r, tr, kind):
         holds, fails = set(), set()
         okg = True
         for kind_, tid, wantv in guards:
+            cj = conjuncts(S, tid) if kind_ == 'ite' else [tid]
+            if len(cj) > 1:
+                # a non-short-circuit conjunction `c1 & c2 & ..` used as one guard
+                cs = [clause(x) for x in cj]
+                if any(c_ is None for c_ in cs):
+                    bad.append('guard %s' % S.show(tid)[:80])
+                    okg = False
+                    break
+                if wantv is True:
+                    for pair, what, neg in cs:
+                        if not neg:
+                            holds.add(pair)
+                        elif what == 'cmp':
+                            fails.add(pair)
+                elif all(what == 'cmp' and not neg for pair, what, neg in cs):
+                    fails.add(('one of', tuple(p_ for p_, w_, n_ in cs)))
+                continue
             c = clause(tid) if kind_ == 'ite' else None
             if c is None:
                 bad.append('guard %s' % S.show(tid)[:80])
